@@ -34,9 +34,9 @@ def Scalar : Value → Bool
   | .map _ _ => false
   | _ => true
 
-theorem showFloat_format (f : F64) (s : Bytes) (h : Spec.Eval.showFloat f = .val s) : F64.format f = s := by
+theorem showFloat_format (f : F64) (s : Bytes) (h : Spec.Eval.showFloat f = .val s) : F64.formatJS f = s := by
   unfold Spec.Eval.showFloat at h
-  unfold F64.format
+  unfold F64.formatJS
   split at h
   · simp at h
   · rename_i hc
@@ -49,7 +49,7 @@ theorem showFloat_format (f : F64) (s : Bytes) (h : Spec.Eval.showFloat f = .val
     split at h
     · simp at h
     · rename_i hw
-      have hw' : ¬ (((F64.natDigits c).length : Int) + k - 1 < -4 ∨ 6 ≤ ((F64.natDigits c).length : Int) + k - 1) := by omega
+      have hw' : ¬ (((F64.natDigits c).length : Int) + k - 1 < -6 ∨ 21 ≤ ((F64.natDigits c).length : Int) + k - 1) := by omega
       simp only [Bool.or_eq_true, decide_eq_true_eq, hw', if_false]
       simp only [Spec.Eval.Out.val.injEq] at h
       rw [← h]
@@ -243,5 +243,27 @@ theorem truthy_abs (v : Value) (h : Scalar v = true) : Spec.Eval.truthy (absV v)
   | map _ _ => simp [Scalar] at h
   | int i => simp only [absV, Spec.Eval.truthy, Value.truthy, bne, toInt_eq_zero]
   | _ => simp [absV, Spec.Eval.truthy, Value.truthy]
+
+/-- int → float conversion is order-exact on the integers of magnitude ≤ 2^53 -/
+def OrdExact : Prop := ∀ x y : Int, Spec.Eval.small x = true → Spec.Eval.small y = true →
+  F64.lt (F64.ofInt x) (F64.ofInt y) = decide (x < y) ∧ F64.le (F64.ofInt x) (F64.ofInt y) = decide (x ≤ y)
+
+theorem cmp_refines (hx : OrdExact) (op : BinOp) (hop : op = .lt ∨ op = .le ∨ op = .gt ∨ op = .ge)
+    (a b : Value) (ha : Scalar a = true) (hb : Scalar b = true) : ArithSpec op a b := by
+  rcases hop with rfl | rfl | rfl | rfl <;> cases a <;> cases b <;>
+    simp_all [ArithSpec, Scalar, absV, Spec.Eval.binop, Spec.Eval.compareV, arith, Spec.Eval.toF, toFloat, F64.ofInt64]
+  all_goals (refine ⟨fun v hv => ?_, fun h => ?_⟩)
+  all_goals first
+    | (split at h <;> simp at h)
+    | (split at hv
+       · rename_i hs
+         simp only [Out.val.injEq] at hv
+         first
+           | (rw [← hv, (hx _ _ hs.1 hs.2).1])
+           | (rw [← hv, (hx _ _ hs.1 hs.2).2])
+           | (rw [← hv, (hx _ _ hs.2 hs.1).1])
+           | (rw [← hv, (hx _ _ hs.2 hs.1).2])
+           | exact hv
+       · simp at hv)
 
 end SoyVerif.Refine
